@@ -79,7 +79,8 @@ class ParserScenario:
         a, b = obj(st, args[0]), obj(st, args[1])
         da, db = ex.discr(st, a).t, ex.discr(st, b).t
         pa = ex.load(st, a.oid, ('f', 'Some', 0), 'u8').t; pb = ex.load(st, b.oid, ('f', 'Some', 0), 'u8').t
-        return [(st, BoolV(z3.And(da == db, z3.Implies(da == 1, pa == pb))))]
+        e = z3.And(da == db, z3.Implies(da == 1, pa == pb))
+        return [(st, BoolV(z3.Not(e) if func.endswith('::ne') else e))]
 
     def s_from_utf8(self, ex, st, func, args, ty):
         m = model(st, args[0]); bs = [b.t for b in m]
@@ -248,7 +249,7 @@ class ParserScenario:
             (r' as FromResidual<.*>>::from_residual$', self.s_fromres),
             (r'<std::io::Bytes<R> as Iterator>::next$', self.s_bytes_next),
             (r'<reader::Location as Clone>::clone$|<Location as Clone>::clone$', s_clone),
-            (r'<Option<u8> as PartialEq>::eq$', self.s_opt_u8_eq),
+            (r'<Option<u8> as PartialEq>::(eq|ne)$', self.s_opt_u8_eq),
             (r'Vec::<.*>::new$', s_seq_new), (r'Vec::<.*>::push$', s_seq_push),
             (r'String::from_utf8$', self.s_from_utf8), (r'<std::string::String as Deref>::deref$', s_identity),
             (r'parse::<u64>$|parse::<i64>$', self.s_parse_int), (r'ParseIntError::kind$', self.s_pie_kind), (r'<&IntErrorKind as PartialEq>::eq$|<IntErrorKind as PartialEq>::eq$', self.s_kind_eq),
@@ -263,10 +264,15 @@ class ParserScenario:
             (r'IndexMap::<.*>::new$', self.s_map_new), (r'IndexMap::<.*>::insert$', self.s_map_insert),
             (r'ToString>::to_string$|type_name$|RangeInclusive|collect::<|Extend<|box_assume_init|into_vec|exchange_malloc|box_new|new_uninit|assume_init|slice::<impl \[.*\]>::into_vec', self.s_opaque),
         ]
-        JP = r'^json_parser::<impl at [^>]*>::'; RD = r'^reader::<impl at [^>]*>::'
-        inl = [(r'Reader::<R>::%s$' % m, RD + m + '$') for m in ('next', 'peek', 'eat_whitespace', 'read_digits', 'where_am_i')]
-        inl += [(r'JsonParserUtils>::%s(::<\d+>)?$' % m, JP + m + '$') for m in ('read_true', 'read_false', 'read_null', 'read_array', 'read_object', 'read_number', 'read_string', 'read_reserved_word', 'parse_to_double')]
-        inl += [(r'JsonParser>::next_json_value$', JP + 'next_json_value$')]
+        # every method of the parser / reader impls found in the MIR is executed for real (robust against helper refactorings)
+        inl = []
+        for name in ctx.fns:
+            m = re.match(r'^json_parser::<impl at [^>]*>::(\w+)$', name)
+            if m and m.group(1) != 'can_recover':
+                inl.append((r'JsonParserUtils>::%s(::<\d+>)?$|JsonParser>::%s$' % (m.group(1), m.group(1)), '^' + re.escape(name) + '$'))
+            m = re.match(r'^reader::<impl at [^>]*>::(next|peek|eat_whitespace|read_digits|where_am_i)$', name)
+            if m:
+                inl.append((r'Reader::<R>::%s$' % m.group(1), '^' + re.escape(name) + '$'))
         self.extra = []
         return ctx.exec(summaries=summ, inline=inl, max_visits=4 * self.n + 12)
 
